@@ -285,6 +285,9 @@ func (e *Engine) buildCallGraph() {
 					} else if u, ok := c.Value.(*ssa.UnOp); ok && u.Op == token.MUL {
 						if a, ok := u.X.(*ssa.Alloc); ok && a.Comment != "" {
 							dyn["localfn "+a.Comment] = true
+							if a.Parent() != nil {
+								dyn["localfn "+e.fnKey(a.Parent())+"."+a.Comment] = true
+							}
 						}
 					}
 				}
